@@ -91,7 +91,7 @@ prop("C16", True, "model_checking",
      TB, "DESIGN.md section 4/C16")
 prop("C17", True, "model_checking",
      "exact TLA+ model of the canonicalizer pipeline (spec/Canon.tla CanonRun: default-scheme retry, repeated percent-decoding re-entered through the standard's setters, remove-*, sort-query on the list machine; GoogleSafeBrowsing and Semantic as option records incl. lax host / accept-invalid / Latin-1) + the fixed-point law; both evaluated by TLC on outputs observed from the real profiles",
-     "For WhatWg, WhatWgSortQuery and 9 option-composed profiles the OUTPUT of every string of the parse families is predicted by the specification and compared (so a wrong canonical form is caught even when it is a fixed point); for GoogleSafeBrowsing and Semantic the output is predicted for every string too (lax host parsing, accept-invalid-code-points and the Latin-1 override are modelled in spec/BasicParser.tla), and the fixed-point law is demanded of them on every spelling of the TLC-enumerated ordinary-web-URL grammar. Known findings F03 / F14 are characterised by spec-evaluated predicates on the list stored in the first output.",
+     "For WhatWg, WhatWgSortQuery and 9 option-composed profiles the OUTPUT of every string of the parse families is predicted by the specification and compared (so a wrong canonical form is caught even when it is a fixed point); for GoogleSafeBrowsing and Semantic the output is predicted for every string too (lax host parsing, accept-invalid-code-points and the Latin-1 override are modelled in spec/BasicParser.tla), and the fixed-point law is demanded of them on every spelling of the TLC-enumerated ordinary-web-URL grammar. A token-generated space of 2.5 M (quick) / 57 M (thorough) (input, profile) pairs is additionally scanned by the driver on the real code; law failures and a sample of the rest are validated by TLC. Known findings F03 / F14 are characterised by spec-evaluated predicates on the list stored in the first output.",
      TB, "DESIGN.md section 4/C17, 10.1")
 prop("C18", True, "model_checking",
      "variation operators of spec/Canon.tla (18 structural variations + escapes at segment / parameter name / value / fragment); TLC emits classes (abstract URL x all combinations of up to 2-3 variations); class equality evaluated by TLC on real outputs; for standard-normalised variations TLC also proves equality on the spec (StdClassInv)",
